@@ -2,13 +2,18 @@
    regenerated from /repo/optimism/Mechanics.py (OV.gen.Gen_Mechanics) at T := R, applied entry by entry to fields I -> R over an
    arbitrary index set I of degrees of freedom (OV.model.M_C15_Newmark).  m and k stand for the mass form (Hessian of the
    kinetic energy) and the stiffness form (Hessian of the quadratic strain energy): ANY symmetric bilinear forms (`sbf`).
-   The minimiser of the algorithmic energy is an oracle `solve`; what is assumed about it is stated in each theorem. *)
+   The minimiser of the algorithmic energy is an oracle `solve`; what is assumed about it is stated in each theorem.
+   Second part (theorems C15_fe_..., C15_c03_..., C15_mass_total_is_density_times_area...): m and k are no longer arbitrary -- they are the
+   quadrature sums over a mesh of OV.model.M_C15_FE (regenerated kinetic_energy_density / LinearElastic kernels), for which the
+   hypotheses of the first part are proved, and which are composed with C03's lifting theorems. *)
 From Coq Require Import Reals List.
 From Coquelicot Require Import Coquelicot.
 From OV.base Require Import Num.
 From OV.gen Require Import Gen_Mechanics.
-From OV.model Require Import M_C15_Newmark.
-From OV.proofs Require Import L_C15.
+From OV.gen Require Import Gen_TensorMath Gen_LinearElastic.
+From OV.model Require Import M_C15_Newmark M_C15_FE.
+From OV.proofs Require Import L_C15 L_C15fe.
+From OV.proofs Require Import L_C03sn L_C03cert L_C03lift L_C15fe_C03.
 Import ListNotations.
 Local Open Scope R_scope.
 
@@ -89,11 +94,165 @@ Theorem C15_mass_total : forall (rho : R) (qp : list (R * list R)) (n : nat),
   @mass_total R NumR rho qp n = rho * @nsum R NumR (map fst qp).
 Proof. exact mass_total_is_rho_area. Qed.
 
-(* NOT PROVED: that the finite-element mass and stiffness forms of a given mesh ARE symmetric bilinear forms with M positive
-   definite, K positive semi-definite and K c = 0 for translations (they are Hessians of energies assembled by NumPy indexing; the
-   partition-of-unity premise is C03's); the correspondence checks symmetry, the momentum balance, the update formulas, the energy
-   drift, rigid translation and the mass total on the real DynamicsFunctions.  NOT PROVED: anything in binary64 (the drift
-   observed there is bounded by the solver tolerance, not zero). *)
+(* ================================================================================================================
+   The quadrature model of the energies integrated by Mechanics.create_dynamics_functions (model/M_C15_FE.v): a mesh is ANY list of
+   elements (connectivity over any node type A, one record per quadrature point: volume weight, shape values, physical shape
+   gradients); kinetic_energy_density, linear_strain, _linear_elastic_energy_density, _make_properties are the regenerated
+   kernels.  fe_mass_form = sum_q w_q rho u_h(q).v_h(q);  fe_stiff_form = sum_q w_q eps(u):C:eps(v)  (plane strain).
+   The hypotheses "m, k are symmetric bilinear forms, m positive definite, k >= 0, k c = 0" of the theorems above are
+   discharged for these forms. *)
+
+(* ---- symmetry and bilinearity: every mesh, every weight (even negative), every density and moduli *)
+Theorem C15_fe_mass_form_symmetric_bilinear : forall (A : Type) (mesh : list (@elem R A)) (rho : R),
+  sbf (@dof A) (@fe_mass_form R NumR A rho mesh).
+Proof. exact fe_mass_sbf. Qed.
+Theorem C15_fe_stiffness_form_symmetric_bilinear : forall (A : Type) (mesh : list (@elem R A)) (mu kappa : R),
+  sbf (@dof A) (@fe_stiff_form R NumR A mu kappa mesh).
+Proof. exact fe_stiff_sbf. Qed.
+(* ---- the forms ARE the second-order parts of the energies the library integrates (regenerated densities) *)
+Theorem C15_fe_kinetic_energy_is_half_mass_form : forall (A : Type) (mesh : list (@elem R A)) (rho : R) (v : @nfield R A),
+  @fe_kinetic_energy R NumR A rho mesh v = 1 / 2 * @fe_mass_form R NumR A rho mesh v v.
+Proof. exact fe_kinetic_half_mass. Qed.
+Theorem C15_fe_strain_energy_is_half_stiffness_form : forall (A : Type) (mesh : list (@elem R A)) (E nu : R) (u : @nfield R A),
+  @fe_strain_energy R NumR A E nu mesh u = 1 / 2 * @fe_stiff_form R NumR A (le_mu E nu) (le_kappa E nu) mesh u u.
+Proof. exact fe_strain_half_stiff. Qed.
+Theorem C15_lame_moduli : forall E nu : R,
+  (le_mu E nu = E / (2 * (1 + nu)) /\ le_kappa E nu = E / (3 * (1 - 2 * nu))) /\
+  (0 < E -> -1 < nu < 1 / 2 -> 0 < le_mu E nu /\ 0 < le_kappa E nu).
+Proof. exact lame_moduli. Qed.
+(* compute_newmark_lagrangian as modelled is the algorithmic energy of C15_balance with these forms *)
+Theorem C15_fe_algorithmic_energy : forall (A : Type) (mesh : list (@elem R A)) (rho E nu b dt : R) (Up U : @nfield R A),
+  @fe_alg_energy R NumR A rho E nu b dt mesh Up U
+  = @alg_energy R NumR (@dof A) (SEq (@dof A) (@fe_stiff_form R NumR A (le_mu E nu) (le_kappa E nu) mesh)) (@fe_mass_form R NumR A rho mesh) b dt Up U.
+Proof. exact fe_alg_energy_eq. Qed.
+
+(* ---- positive semi-definiteness for non-negative volume weights *)
+Theorem C15_fe_mass_form_psd : forall (A : Type) (mesh : list (@elem R A)) (rho : R) (v : @nfield R A),
+  0 <= rho -> (forall e q, In e mesh -> In q (snd e) -> 0 <= qw q) -> 0 <= @fe_mass_form R NumR A rho mesh v v.
+Proof. exact fe_mass_psd. Qed.
+Theorem C15_fe_stiffness_form_psd : forall (A : Type) (mesh : list (@elem R A)) (mu kappa : R) (v : @nfield R A),
+  0 <= mu -> 0 <= kappa -> (forall e q, In e mesh -> In q (snd e) -> 0 <= qw q) -> 0 <= @fe_stiff_form R NumR A mu kappa mesh v v.
+Proof. exact fe_stiff_psd. Qed.
+(* ---- the null space of the mass form (w_q > 0, rho > 0): exactly the fields whose interpolant vanishes at every quadrature
+   point; hence M is positive definite IF AND ONLY IF sampling at the quadrature points is injective on nodal fields *)
+Theorem C15_fe_mass_form_null_space : forall (A : Type) (mesh : list (@elem R A)) (rho : R) (v : @nfield R A),
+  0 < rho -> (forall e q, In e mesh -> In q (snd e) -> 0 < qw q) ->
+  (@fe_mass_form R NumR A rho mesh v v = 0 <->
+   forall e q, In e mesh -> In q (snd e) -> @interp R NumR A v (fst e) q false = 0 /\ @interp R NumR A v (fst e) q true = 0).
+Proof. exact fe_mass_null_space. Qed.
+Theorem C15_fe_mass_form_definite_iff_unisolvent : forall (A : Type) (mesh : list (@elem R A)) (rho : R),
+  0 < rho -> weights_pos A mesh ->
+  ((forall v, @fe_mass_form R NumR A rho mesh v v = 0 -> v = @fzero R NumR (@dof A)) <-> unisolvent A mesh).
+Proof. exact fe_mass_definite_iff. Qed.
+(* positive weights and partition of unity alone do NOT make M definite (under-integrating rules): "M positive definite" without
+   the unisolvence premise is false of the model *)
+Theorem C15_fe_mass_definite_without_unisolvence_refuted :
+  weights_pos bool ex2_mesh /\ partition_of_unity bool ex2_mesh /\ grad_sums_zero bool ex2_mesh /\
+  exists v : @nfield R bool, @fe_mass_form R NumR bool 1 ex2_mesh v v = 0 /\ v <> @fzero R NumR (@dof bool).
+Proof. exact fe_mass_not_definite_witness. Qed.
+
+(* ---- K c = 0 for rigid translations, from "the shape-function gradients of every element sum to zero at every quadrature
+   point" (grad_sums_zero: C03's gradient partition of unity, one gradient per element node) *)
+Theorem C15_fe_stiffness_annihilates_translations : forall (A : Type) (mesh : list (@elem R A)) (mu kappa cx cy : R) (w : @nfield R A),
+  (forall e q, In e mesh -> In q (snd e) ->
+     length (qGx q) = length (fst e) /\ length (qGy q) = length (fst e) /\ @nsum R NumR (qGx q) = 0 /\ @nsum R NumR (qGy q) = 0) ->
+  @fe_stiff_form R NumR A mu kappa mesh (@translation R A cx cy) w = 0.
+Proof. exact fe_stiff_translation. Qed.
+
+(* ---- the Newmark theorems over the modelled energies: no hypothesis about forms left *)
+Theorem C15_fe_energy_conserved : forall (A : Type) (mesh : list (@elem R A)) (rho E nu : R)
+    (solve : @nfield R A -> R -> @nfield R A) (dts : list R) (s : @state R (@dof A)),
+  (forall dt, In dt dts -> dt <> 0) ->
+  (forall Up dt, dt <> 0 -> forall w, is_derive (fun e : R =>
+      @fe_alg_energy R NumR A rho E nu (1 / 4) dt mesh Up (@fadd R NumR (@dof A) (solve Up dt) (@fscal R NumR (@dof A) e w))) 0 0) ->
+  (forall w, @fe_mass_form R NumR A rho mesh (sA s) w + @fe_stiff_form R NumR A (le_mu E nu) (le_kappa E nu) mesh (sU s) w = 0) ->
+  let sN := @newmark_run R NumR (@dof A) (1 / 2) (1 / 4) solve s dts in
+  (@fe_kinetic_energy R NumR A rho mesh (sV sN) + @fe_strain_energy R NumR A E nu mesh (sU sN)
+   = @fe_kinetic_energy R NumR A rho mesh (sV s) + @fe_strain_energy R NumR A E nu mesh (sU s)) /\
+  (forall w, @fe_mass_form R NumR A rho mesh (sA sN) w + @fe_stiff_form R NumR A (le_mu E nu) (le_kappa E nu) mesh (sU sN) w = 0).
+Proof. exact fe_energy_conserved. Qed.
+Theorem C15_fe_rigid_translation : forall (A : Type) (mesh : list (@elem R A)) (rho E nu g b cx cy ox oy : R)
+    (solve : @nfield R A -> R -> @nfield R A) (dts : list R),
+  0 < rho -> 0 < E -> -1 < nu < 1 / 2 -> 0 < b ->
+  weights_pos A mesh -> grad_sums_zero A mesh -> unisolvent A mesh ->
+  (forall Up dt, dt <> 0 -> fe_stationary A mesh rho E nu b dt Up (solve Up dt)) ->
+  (forall dt, In dt dts -> dt <> 0) ->
+  @newmark_run R NumR (@dof A) g b solve (mkState (@translation R A ox oy) (@translation R A cx cy) (@fzero R NumR (@dof A))) dts
+  = mkState (@fadd R NumR (@dof A) (@translation R A ox oy) (@fscal R NumR (@dof A) (fold_right Rplus 0 dts) (@translation R A cx cy)))
+            (@translation R A cx cy) (@fzero R NumR (@dof A)).
+Proof. exact fe_rigid_translation. Qed.
+
+(* ---- total mass: partition of unity => m(c, c') = rho * (sum of the quadrature volumes) * c.c' for translations c, c'
+   (c = c' = e_x: the x-x entries of the consistent mass matrix sum to rho * volume; c = e_x, c' = e_y: the x-y entries sum to 0) *)
+Theorem C15_fe_mass_total : forall (A : Type) (mesh : list (@elem R A)) (rho cx cy dx dy : R),
+  (forall e q, In e mesh -> In q (snd e) -> length (qN q) = length (fst e) /\ @nsum R NumR (qN q) = 1) ->
+  @fe_mass_form R NumR A rho mesh (@translation R A cx cy) (@translation R A dx dy) = rho * @fe_volume R NumR A mesh * (cx * dx + cy * dy).
+Proof. exact fe_mass_translations. Qed.
+
+(* ================================================================================================================
+   Composition with C03: meshes as FunctionSpace builds them from reference tables (c03_mesh: vols = jac * w_q = C03's el_vols,
+   shapeGrads = C03's map_grad of the reference gradients).  RefIds / TriQuadExact are the predicates C03's certificate checkers
+   establish for the runtime tables (with tolerance eps for the shape tables, epsq for the quadrature rule). *)
+Theorem C15_c03_mesh_premises : forall (A : Type) (p : nat) (nodes : list (R * R)) (ws : list R) (tabs : list reftab)
+    (els : list (list A * tri)) (d : nat) (epsq : R) (pts : list (R * R)),
+  (forall t, In t tabs -> exists q, RefIds p 0 nodes q (fst t) (fst (snd t)) (snd (snd t))) ->
+  (forall ct, In ct els -> length (fst ct) = length nodes) ->
+  TriQuadExact d epsq pts ws -> (forall ct, In ct els -> ccw (snd ct)) ->
+  partition_of_unity A (c03_mesh ws tabs els) /\ grad_sums_zero A (c03_mesh ws tabs els) /\ weights_pos A (c03_mesh ws tabs els).
+Proof. exact c03_mesh_premises. Qed.
+(* "the consistent mass sums to density * area": for the certified tolerances of the binary64 tables, explicit bound; exact for
+   exact tables.  mesh_area = sum of the triangle areas of the (counter-clockwise) elements. *)
+Theorem C15_mass_total_is_density_times_area : forall (A : Type) (p : nat) (eps : R) (nodes : list (R * R)) (ws : list R)
+    (tabs : list reftab) (els : list (list A * tri)) (d : nat) (epsq : R) (pts : list (R * R)) (rho cx cy dx dy : R),
+  (forall t, In t tabs -> exists q, RefIds p eps nodes q (fst t) (fst (snd t)) (snd (snd t))) ->
+  (forall ct, In ct els -> length (fst ct) = length nodes) ->
+  TriQuadExact d epsq pts ws -> length ws = length tabs -> (forall ct, In ct els -> ccw (snd ct)) ->
+  0 <= eps -> 0 <= epsq ->
+  Rabs (@fe_mass_form R NumR A rho (c03_mesh ws tabs els) (@translation R A cx cy) (@translation R A dx dy)
+        - rho * mesh_area A els * (cx * dx + cy * dy))
+  <= Rabs (rho * (cx * dx + cy * dy)) * mesh_area A els * ((1 + 2 * epsq) * (eps * (2 + eps)) + 2 * epsq).
+Proof. exact mass_total_density_area_eps. Qed.
+Theorem C15_mass_total_is_density_times_area_exact : forall (A : Type) (p : nat) (nodes : list (R * R)) (ws : list R)
+    (tabs : list reftab) (els : list (list A * tri)) (d : nat) (pts : list (R * R)) (rho cx cy dx dy : R),
+  (forall t, In t tabs -> exists q, RefIds p 0 nodes q (fst t) (fst (snd t)) (snd (snd t))) ->
+  (forall ct, In ct els -> length (fst ct) = length nodes) ->
+  TriQuadExact d 0 pts ws -> length ws = length tabs -> (forall ct, In ct els -> ccw (snd ct)) ->
+  @fe_mass_form R NumR A rho (c03_mesh ws tabs els) (@translation R A cx cy) (@translation R A dx dy)
+  = rho * mesh_area A els * (cx * dx + cy * dy).
+Proof. exact mass_total_density_area_exact. Qed.
+(* rigid translation on meshes built from exact reference tables: the premises K c = 0 and w_q > 0 are now C03's theorems *)
+Theorem C15_c03_rigid_translation : forall (A : Type) (p : nat) (nodes : list (R * R)) (ws : list R) (tabs : list reftab)
+    (els : list (list A * tri)) (d : nat) (epsq : R) (pts : list (R * R)) (rho E nu g b cx cy ox oy : R)
+    (solve : @nfield R A -> R -> @nfield R A) (dts : list R),
+  (forall t, In t tabs -> exists q, RefIds p 0 nodes q (fst t) (fst (snd t)) (snd (snd t))) ->
+  (forall ct, In ct els -> length (fst ct) = length nodes) ->
+  TriQuadExact d epsq pts ws -> (forall ct, In ct els -> ccw (snd ct)) ->
+  unisolvent A (c03_mesh ws tabs els) ->
+  0 < rho -> 0 < E -> -1 < nu < 1 / 2 -> 0 < b ->
+  (forall Up dt, dt <> 0 -> fe_stationary A (c03_mesh ws tabs els) rho E nu b dt Up (solve Up dt)) ->
+  (forall dt, In dt dts -> dt <> 0) ->
+  @newmark_run R NumR (@dof A) g b solve (mkState (@translation R A ox oy) (@translation R A cx cy) (@fzero R NumR (@dof A))) dts
+  = mkState (@fadd R NumR (@dof A) (@translation R A ox oy) (@fscal R NumR (@dof A) (fold_right Rplus 0 dts) (@translation R A cx cy)))
+            (@translation R A cx cy) (@fzero R NumR (@dof A)).
+Proof. exact c03_rigid_translation_exact. Qed.
+
+(* NOT PROVED (remaining):
+   - unisolvence of the quadrature points for the nodal fields (<=> M positive definite, C15_fe_mass_form_definite_iff_unisolvent)
+     is a premise of the translation theorems: it is a rank condition on the shape tables of each (element order, quadrature
+     rule) pair and is FALSE for pairs the library accepts (order 2 with the degree-2 rule; witness
+     C15_fe_mass_definite_without_unisolvence_refuted), so it cannot be derived from w_q > 0; the harness checks it
+     (smallest eigenvalue of the assembled mass matrix) on every fully integrated problem;
+   - K c = 0 is exact only for exact tables (RefIds .. 0 ..); for the certified tolerance eps of the binary64 tables C03 gives
+     |sum grad N| <= const * eps, and the corresponding O(eps) bound on k(c, w) is not stated (the mass total is:
+     C15_mass_total_is_density_times_area);
+   - that the model of the mesh integrals (interp / grad2 / fe_sum, the zero padding of tensor_2D_to_3D, the composition of the
+     regenerated kernels) is what FunctionSpace/Mechanics compute is tied by the correspondence (model energies and forms at
+     binary64 against compute_output_kinetic_energy, compute_output_strain_energy, compute_algorithmic_energy and the
+     jax Hessians on a real function space), not proved from the NumPy indexing code; axisymmetric mode and the pressure
+     projection are not modelled (the correspondence covers axisymmetric runs on the implementation only);
+   - the premises of the C03 composition (affine elements with nodes at the images of the reference nodes, tables satisfying
+     RefIds/TriQuadExact) are C03's / C13's theorems and certificates, not re-proved here;
+   - anything in binary64 (the drift observed there is bounded by the solver tolerance, not zero). *)
 
 Example C15_energy_hypotheses_nonvacuous :
   exists (s : @state R unit) (solve : (unit -> R) -> R -> (unit -> R)),
@@ -107,9 +266,24 @@ Example C15_translation_hypotheses_nonvacuous :
   (forall b, b <> 0 -> forall Up dt, dt <> 0 -> stationary_at unit m1 k0 b dt Up ((fun Up _ => Up) Up dt)).
 Proof. exact translation_hypotheses_satisfiable. Qed.
 
+Example C15_fe_premises_nonvacuous :
+  weights_pos three ex_mesh /\ partition_of_unity three ex_mesh /\ grad_sums_zero three ex_mesh /\ unisolvent three ex_mesh /\
+  @fe_volume R NumR three ex_mesh = 1 / 2 /\ (exists u, 0 < @fe_stiff_form R NumR three 1 1 ex_mesh u u).
+Proof. exact ex_mesh_premises. Qed.
+Example C15_c03_premises_nonvacuous :
+  let tabs : list reftab := [([1 / 3; 1 / 3; 1 / 3], ([1; 0; -1], [0; 1; -1]))] in
+  let els : list (list nat * tri) := [([0; 1; 2]%nat, ((0, 0), (2, 0), (0, 1)))] in
+  (forall t, In t tabs -> exists q, RefIds 1 0 p1_nodes q (fst t) (fst (snd t)) (snd (snd t))) /\
+  (forall ct, In ct els -> length (fst ct) = length p1_nodes) /\
+  TriQuadExact 1 0 [p1_q] [1 / 2] /\ length [1 / 2] = length tabs /\ (forall ct, In ct els -> ccw (snd ct)) /\
+  mesh_area nat els = 1.
+Proof. exact c03_premises_satisfiable. Qed.
+
 Print Assumptions C15_update_formulas.
 Print Assumptions C15_balance.
 Print Assumptions C15_energy_conserved.
 Print Assumptions C15_energy_needs_consistent_A0_refuted.
 Print Assumptions C15_rigid_translation.
 Print Assumptions C15_mass_total.
+Print Assumptions C15_fe_rigid_translation.
+Print Assumptions C15_mass_total_is_density_times_area.
